@@ -42,6 +42,8 @@ def check_case(case: dict) -> Result:
     kind = case["kind"]
     if kind == "coalitions":
         return _check_coalitions(case["n"])
+    if kind == "coalitions-light":
+        return _check_coalitions_light(case["n"])
     if kind == "pairs":
         return _check_pairs(case["n"])
     if kind == "helpers":
@@ -121,6 +123,39 @@ def _check_coalitions(n: int) -> Result:
         res.fail(f"grand_coalition :: n={n}")
     res.nontrivial = True
     res.label(f"coalitions n={n}")
+    res.labels.append(f"coalitions-checked={1 << n}")
+    return res
+
+
+def _check_coalitions_light(n: int) -> Result:
+    """Every coalition id of a larger n, without the (exponential) sub-/super-coalition enumerations: size, players, membership,
+    complement in both representations."""
+    import numpy as np
+    from incomplete_cooperative import coalition_ids as cid
+    from incomplete_cooperative.coalitions import Coalition
+    res = Result()
+    full = (1 << n) - 1
+    for s in range(1 << n):
+        c = Coalition(s)
+        fs = _fs(s)
+        if list(c.players) != sorted(fs) or len(c) != len(fs):
+            res.fail(f"players/len :: n={n} coalition {s}")
+        if _fs(c.inverted(n).id) != _fs(full) - fs:
+            res.fail(f"inverted :: n={n} coalition {s}")
+        ci = np.int32(s)
+        if list(map(int, cid.players(ci, n))) != sorted(fs):
+            res.fail(f"ids.players :: n={n} coalition {s}: {list(map(int, cid.players(ci, n)))}")
+        if int(cid.get_size(ci, n)) != len(fs):
+            res.fail(f"ids.get_size :: n={n} coalition {s}: {int(cid.get_size(ci, n))}, the coalition has {len(fs)} players")
+        if int(cid.get_size(s, n)) != len(fs):
+            res.fail(f"ids.get_size(int) :: n={n} coalition {s}: {int(cid.get_size(s, n))}")
+        for p in (0, n // 2, n - 1):
+            if (p in c) != (p in fs) or _fs((c + p).id) != fs | {p} or _fs((c - p).id) != fs - {p}:
+                res.fail(f"player-ops :: n={n} coalition {s} player {p}")
+        if res.failures:
+            break
+    res.nontrivial = True
+    res.label(f"coalitions-light n={n}")
     res.labels.append(f"coalitions-checked={1 << n}")
     return res
 
@@ -419,6 +454,7 @@ def plan(tier: str) -> list[dict]:
     if tier == "quick":
         return ([{"mode": "enum", "cases": [{"kind": "coalitions", "n": n} for n in range(1, 8)] + [{"kind": "helpers", "n": n} for n in range(1, 8)], "cost": 2},
                  {"mode": "enum", "cases": [{"kind": "coalitions", "n": 8}], "cost": 3},
+                 {"mode": "enum", "cases": [{"kind": "coalitions-light", "n": n} for n in (9, 10, 11)], "cost": 2},
                  {"mode": "enum", "cases": [{"kind": "pairs", "n": n} for n in range(1, 6)], "cost": 2},
                  {"mode": "enum", "cases": [{"kind": "lattice", "L": 1, "top": t} for t in (-1, 0, 1)], "cost": 3},
                  {"mode": "enum", "cases": [{"kind": "lattice4", "values": [0, 1]}], "cost": 3},
@@ -426,6 +462,7 @@ def plan(tier: str) -> list[dict]:
                  {"mode": "tol", "n": 4, "examples": 80, "cost": 1}, {"mode": "samscale", "n": 4, "examples": 200, "cost": 1}])
     return ([{"mode": "enum", "cases": [{"kind": "coalitions", "n": n} for n in range(1, 9)] + [{"kind": "helpers", "n": n} for n in range(1, 10)], "cost": 3},
              {"mode": "enum", "cases": [{"kind": "coalitions", "n": 9}], "cost": 8},
+             {"mode": "enum", "cases": [{"kind": "coalitions-light", "n": n} for n in (11, 12, 13)], "cost": 6},
              {"mode": "enum", "cases": [{"kind": "coalitions", "n": 10}], "cost": 30},
              {"mode": "enum", "cases": [{"kind": "pairs", "n": n} for n in range(1, 6)], "cost": 3},
              {"mode": "enum", "cases": [{"kind": "pairs", "n": 6}], "cost": 3}]
